@@ -368,33 +368,49 @@ inductive Outcome
   | fuel
   deriving DecidableEq, Repr, Inhabited
 
+/-- what one run of the loop did -/
+structure Trace where
+  /-- the requests as sent -/
+  sent : List Req
+  /-- status of the last response -/
+  last : Nat
+  /-- redirect follow-ups: the loop went on after a redirect response -/
+  followUps : Nat
+  /-- authentication retries: the loop went on after a 401 -/
+  authRetries : Nat
+  out : Outcome
+  deriving Repr, Inhabited
+
 /-- The loop `while not session.done(): session.start(); session.download()` against an
-adversary that sees every request sent so far.  Returns the requests as sent, the last
-response status, and how the loop ended. -/
-def run (cfg : Cfg) (adv : List Req → Reply) : Nat → Sess → List Req → Nat → List Req × Nat × Outcome
-  | 0, _, sent, last => (sent, last, .fuel)
-  | n + 1, s, sent, last =>
+adversary that sees every request sent so far. -/
+def run (cfg : Cfg) (adv : List Req → Reply) : Nat → Sess → List Req → Nat → Nat → Nat → Trace
+  | 0, _, sent, last, fu, ar => ⟨sent, last, fu, ar, .fuel⟩
+  | n + 1, s, sent, last, fu, ar =>
     match s.cur with
-    | none => (sent, last, if s.stopped then .skipped else .done)
+    | none => ⟨sent, last, fu, ar, if s.stopped then .skipped else .done⟩
     | some r =>
       let r2 := sendPrep cfg s r
       match toBytes r2 with
-      | .error e => (sent, last, .error e)
+      | .error e => ⟨sent, last, fu, ar, .error e⟩
       | .ok _ =>
         let sent' := sent ++ [r2]
         let s1 := s.setCur r2
         match adv sent' with
-        | .fail e => (sent', last, .error e)
+        | .fail e => ⟨sent', last, fu, ar, .error e⟩
         | .resp st hasLoc tgt =>
           match processResponse cfg s1 r2 st hasLoc tgt with
-          | .error e => (sent', st, .error e)
-          | .ok s2 => run cfg adv n s2 sent' st
+          | .error e => ⟨sent', st, fu, ar, .error e⟩
+          | .ok s2 =>
+            if s2.cur.isSome then
+              if isRedirectCode st then run cfg adv n s2 sent' st (fu + 1) ar
+              else run cfg adv n s2 sent' st fu (ar + 1)
+            else run cfg adv n s2 sent' st fu ar
 
-/-- fuel that always suffices (see `Proofs/C18.lean`, `run_fuel_enough`) -/
+/-- fuel that always suffices (`Proofs/C18.lean`, `session_never_out_of_fuel`) -/
 def enoughFuel (cfg : Cfg) : Nat := 2 * (cfg.maxRedirects + 1) + 2
 
-def session (cfg : Cfg) (adv : List Req → Reply) (r : Req) : List Req × Nat × Outcome :=
-  run cfg adv (enoughFuel cfg) (initSess cfg r) [] 0
+def session (cfg : Cfg) (adv : List Req → Reply) (r : Req) : Trace :=
+  run cfg adv (enoughFuel cfg) (initSess cfg r) [] 0 0 0
 
 /-- scripted adversary: the k-th request gets the k-th reply, then `200` for ever -/
 def scriptAdv (script : List Reply) (sent : List Req) : Reply :=
@@ -440,8 +456,8 @@ def visit (tries : Nat) (accept : Bool) (cfg : Cfg) (adv : List Req → Reply) (
     List Req × List CheckIn :=
   if !(triesFilter tries rec && accept) then ([], [⟨.skipped, true⟩])
   else
-    let (sent, last, out) := session cfg adv r
-    (sent, [endOfVisit last out])
+    let t := session cfg adv r
+    (t.sent, [endOfVisit t.last t.out])
 
 /-- `URLTable.check_in` -/
 def applyCheckIn (rec : Rec) (c : CheckIn) : Rec :=
